@@ -94,6 +94,9 @@ def check_case(spec: dict) -> dict:
         kw["external_exclusions"] = tuple(opt["patterns"])
     if opt["mode"] == "include-regex":
         kw["regex_external_exclusions"] = tuple(opt["patterns"])
+    if opt.get("empty_other"):
+        # the other kind of pattern passed explicitly as an empty tuple (a wrapper that forwards both): means 'none'
+        kw["external_exclusions" if opt["mode"] == "include-regex" else "regex_external_exclusions"] = ()
     with Project(root, files, spec["dirs"]) as pr:
         mp = pr.path(sub_rel) if sub_rel else pr.path()
         base = scan_outcome(pr.path(), mp)
@@ -212,6 +215,8 @@ def cases(draw):
         opt["patterns"] = patterns_for(draw, "glob", ext_targets, internal)
     elif mode == "include-regex":
         opt["patterns"] = patterns_for(draw, "regex", ext_targets, internal)
+    if mode in ("include-glob", "include-regex") and draw(st.integers(0, 2)) == 0:
+        opt["empty_other"] = True
     tree["option"] = opt
     tree["relative_paths"] = draw(st.integers(0, 3)) == 0
     return tree
@@ -244,6 +249,8 @@ def exh_shard(arg, stt, deadline) -> None:
     opts += [{"mode": "include-glob", "patterns": [g]} for g in GLOBS]
     opts += [{"mode": "include-regex", "patterns": [r]} for r in REGEXES]
     opts += [{"mode": "include-glob", "patterns": [GLOBS[i], GLOBS[(i * 5 + 3) % len(GLOBS)]]} for i in range(len(GLOBS))]
+    opts += [{"mode": "include-regex", "patterns": [r], "empty_other": True} for r in REGEXES[::3]]
+    opts += [{"mode": "include-glob", "patterns": [g], "empty_other": True} for g in GLOBS[::3]]
     for opt in opts:
         spec = dict(FIXED, module_path=mp, option=opt, relative_paths=True)
         stt.record(spec, check_case(spec), enumerated=True, sample=(opt["mode"] == "include-glob" and len(opt["patterns"]) == 1 and opt["patterns"][0] in ("*handlers", "os*")))
